@@ -211,6 +211,23 @@ def raw_job(args):
     return 0, feeds, viol, set()
 
 
+def ctrl_job(args):
+    """Every control byte 0..255 (reserved / not-ready bits of ACK and NAK included) in front of a few data fields, with a
+    *valid* CRC, stuffed and flag-terminated, from one expected-number state: whole and bytewise."""
+    expected, = args
+    feeds = 0
+    viol = []
+    for ctrl in range(256):
+        for field in (b"", b"\x02\x0b", b"\x02\x51", P3):
+            wire = ref_ash.wire(ref_ash.with_crc(bytes([ctrl]) + field))
+            for cuts in ((), tuple(range(1, len(wire)))):
+                feeds += 1
+                msg = run_stream(wire, cuts, expected)
+                if msg and len(viol) < 3:
+                    viol.append((("ctrl", ctrl), cuts, wire.hex(), msg))
+    return 0, feeds, viol, set()
+
+
 def large_reads(rep):
     """Many complete frames per read: nothing may be lost as long as the
     unterminated residue stays below the buffer bound."""
@@ -372,9 +389,11 @@ def main(tier: str) -> int:
     for exp in (0, 5):
         for first in sorted(set(INTERESTING)):
             jobs.append(("raw", first, exp, True))
+    for exp in (0, 3):
+        jobs.append(("ctrl", exp))
 
     def run(j):
-        return raw_job(j[1:]) if j[0] == "raw" else token_job(j)
+        return raw_job(j[1:]) if j[0] == "raw" else ctrl_job(j[1:]) if j[0] == "ctrl" else token_job(j)
 
     streams = feeds = 0
     nontrivial = set()
@@ -408,7 +427,7 @@ def main(tier: str) -> int:
         "rule": f"all streams of <= {depth} tokens over a 32-token alphabet (6 reserved bytes, 4 escape complements, 1 ordinary byte, 10 frame bodies incl. bad CRC / bad escape / doubled escape without flag, 11 flag-terminated frames) "
                 "x chunkings (all 2^(n-1) for n <= 12 bytes, else whole + bytewise + every single cut; thorough adds every pair of cuts); all 2-byte streams from each of the 8 expected-number states and 3-byte streams over 30 interesting values, all chunkings; "
                 "large reads; memory matrix; local commutation step; non-trivial = distinct shape of the reference's event list (kinds of deliveries/ACK/NAK in order)",
-        "token_streams": streams, "feeds": feeds, "large_read_cases": lf, "memory_reads": mf,
+        "token_streams": streams, "feeds": feeds, "valid_crc_control_byte_frames": 2 * 256 * 4 * 2, "large_read_cases": lf, "memory_reads": mf,
         "commutation_cases": cf, "commutation_states": cstates,
         "exhaustive": True,
         "samples": [{"stream": ["DATA0", "FLAG", "DATA1", "FLAG"], "bytes": (TOK["DATA0"] + b"\x7e" + TOK["DATA1"] + b"\x7e").hex()},
@@ -428,7 +447,7 @@ def _side(j):
 
 
 def _dispatch(j):
-    return raw_job(j[1:]) if j[0] == "raw" else token_job(j)
+    return raw_job(j[1:]) if j[0] == "raw" else ctrl_job(j[1:]) if j[0] == "ctrl" else token_job(j)
 
 
 def replay(data) -> int:
